@@ -597,6 +597,14 @@ func (s *Scope) evalCall(e *Expr) *Val {
 		x := argv(0)
 		w := bvWidth(x.T.Sort)
 		return &Val{K: KScalar, T: x.T, Ty: map[int]types.Type{8: types.Typ[types.Int8], 16: types.Typ[types.Int16], 32: types.Typ[types.Int32], 64: types.Typ[types.Int64]}[w]}
+	case "bitrev":
+		x := argv(0)
+		w := bvWidth(x.T.Sort)
+		acc := Extract(0, 0, x.T)
+		for i := 1; i < w; i++ {
+			acc = Concat(acc, Extract(i, i, x.T))
+		}
+		return &Val{K: KScalar, T: c.Def("bitrev", acc), Ty: uintType(w)}
 	case "concat":
 		a, b := argv(0), argv(1)
 		t := Concat(a.T, b.T)
